@@ -554,6 +554,42 @@ def run_chains(ctx, binary, base):
             ctx.report("class-named-like-a-generated-function", "%s: exit %d, printed %r, expected %r (or a compile-time refusal of the name): %s"
                        % (cid, r[0], got[-5:], exp, r[2][-200:].replace("\n", " ")), {"case": cid, "files": files, "expected": exp, "observed": got, "rc": r[0], "stderr": r[2][-500:], "how": "mscript run main.ms -q"})
     ctx.cov["generated_name_cases"] = len(gcs)
+    # two different modules that share a FILE NAME (util.ms and lib/util.ms), each imported by a sibling-relative `import util`:
+    # each is its own module, initialised once; in every order of first use; through `run` and through compile + execute
+    def util(tag, start):
+        return ("print \"init %s\"\nexport name: str = \"%s\"\nexport calls: [int...] = [%d]\nexport touch: fn() -> int = fn() -> int {\n  calls[0] = calls[0] + 1\n  return calls[0]\n}\n" % (tag, tag, start))
+    report = ("print \"init lib/report\"\nimport util\nprint \"lib/report continues\"\nexport describe: fn() -> str = fn() -> str {\n  return util.name\n}\n"
+              "export poke: fn() -> int = fn() -> int {\n  return util.touch()\n}\n")
+    sn = [("top-level util first", {"main.ms": "print \"main start\"\nimport util\nprint util.name\nprint util.touch()\nimport lib/report\nprint report.describe()\nprint report.poke()\nprint util.touch()\n",
+                                    "util.ms": util("util", 0), "lib/util.ms": util("lib/util", 100), "lib/report.ms": report},
+           ["main start", "init util", "util", "1", "init lib/report", "init lib/util", "lib/report continues", "lib/util", "101", "2"]),
+          ("nested util first", {"main.ms": "print \"main start\"\nimport lib/report\nprint report.describe()\nprint report.poke()\nimport util\nprint util.name\nprint util.touch()\nprint report.poke()\n",
+                                 "util.ms": util("util", 0), "lib/util.ms": util("lib/util", 100), "lib/report.ms": report},
+           ["main start", "init lib/report", "init lib/util", "lib/report continues", "lib/util", "101", "init util", "util", "1", "102"]),
+          ("three levels", {"main.ms": "print \"main start\"\nimport util\nimport a/util\nimport a/b/util\nprint util.touch()\nprint util.touch()\n",
+                            "util.ms": util("util", 0), "a/util.ms": util("a/util", 10), "a/b/util.ms": util("a/b/util", 20)},
+           ["main start", "init util", "init a/util", "init a/b/util", "21", "22"])]
+
+    def one_sn(c):
+        d = programs.materialize({"files": c[1]}, base)
+        r1 = programs.run_bin(binary, ["run", "main.ms", "-q"], d)
+        d2 = programs.materialize({"files": c[1]}, base)
+        cc = programs.run_bin(binary, ["compile", "main.ms", "--quick"], d2)
+        r2 = programs.run_bin(binary, ["execute", "main.mmm"], d2) if cc[0] == 0 else None
+        shutil.rmtree(d, ignore_errors=True)
+        shutil.rmtree(d2, ignore_errors=True)
+        return r1, r2
+    for (cid, files, exp), (r1, r2) in zip(sn, programs.pmap(one_sn, sn)):
+        for how, r in (("run", r1), ("compile + execute", r2)):
+            if r is None:
+                continue
+            got = r[1].split("\n")[:-1]
+            if cid == "three levels" and r[0] != 0 and "Did not compile" in r[2]:
+                continue           # `import a/util` binds the name util a second time: refusing that is allowed
+            if r[0] != 0 or got != exp:
+                ctx.report("same-file-name-in-two-directories", "%s (%s): exit %d, printed %r, expected %r: %s" % (cid, how, r[0], got[-6:], exp[-6:], r[2][-200:].replace("\n", " ")),
+                           {"case": cid, "files": files, "expected": exp, "observed": got, "rc": r[0], "stderr": r[2][-500:], "how": "mscript run main.ms -q  /  mscript compile main.ms --quick; mscript execute main.mmm"})
+    ctx.cov["same_file_name_cases"] = len(sn)
     return len(cases) + len(gcs)
 
 
